@@ -47,7 +47,8 @@ impl<T> Iterator for ReplT<T> {
     fn size_hint(&self) -> (usize, Option<usize>) { let l = self.len(); (l, Some(l)) }
 }
 impl<T> ExactSizeIterator for ReplT<T> {
-    fn len(&self) -> usize { let real = (self.n - self.pos) as i64; let c = self.calls.get(); self.calls.set(c + 1); std::cmp::max(0, real + lie_now(self.lie, c)) as usize }
+    // `len()` is user code too: a fault-injection point
+    fn len(&self) -> usize { elem::user_call_point(); let real = (self.n - self.pos) as i64; let c = self.calls.get(); self.calls.set(c + 1); std::cmp::max(0, real + lie_now(self.lie, c)) as usize }
 }
 
 /// Replacement iterator yielding `AnyValueRaw` pointing into caller-owned slots.
@@ -64,7 +65,7 @@ impl<T: 'static> Iterator for ReplRaw<T> {
     fn size_hint(&self) -> (usize, Option<usize>) { let l = self.len(); (l, Some(l)) }
 }
 impl<T: 'static> ExactSizeIterator for ReplRaw<T> {
-    fn len(&self) -> usize { let real = (self.n - self.pos) as i64; let c = self.calls.get(); self.calls.set(c + 1); std::cmp::max(0, real + lie_now(self.lie, c)) as usize }
+    fn len(&self) -> usize { elem::user_call_point(); let real = (self.n - self.pos) as i64; let c = self.calls.get(); self.calls.set(c + 1); std::cmp::max(0, real + lie_now(self.lie, c)) as usize }
 }
 
 pub fn range_valid(a: usize, b: usize, len: usize) -> bool { a <= b && b <= len }
